@@ -79,7 +79,14 @@ class Sim:
         gc.disable()
         server_tcp.ConnectionHandler.connections.clear()
         loop = self.loop
-        indi.message.now = lambda: "T%.6f" % loop.time()
+        stamp = [0]
+
+        def now():
+            # virtual time plus a per-run serial number: every emitted message gets a unique, ordered id
+            stamp[0] += 1
+            return "T%.6f#%d" % (loop.time(), stamp[0])
+
+        indi.message.now = now
         watchdog.reset()
         return self
 
@@ -102,9 +109,13 @@ class Sim:
         return self.loop.drain(until=self.loop.time() + dt)
 
     def do(self, fn, *a):
+        if self.loop.is_running():
+            return fn(*a)
         return self.loop.do(fn, *a)
 
     def spawn(self, coro):
+        if self.loop.is_running():
+            return self.loop.create_task(coro)
         return self.loop.do(self.loop.create_task, coro)
 
 
